@@ -909,6 +909,37 @@ def run(chk, facts, tier, only=None):
 
 
     # ------------------------------------------------------------------------------------------------- R5
+    def r6():
+        """`principal`, `service` and `func` values are drawn by `<Principal as Arbitrary>::arbitrary` (crate ic_principal): the two `unwrap`s in it
+        hold because the drawn length lies in 1..=MAX_LENGTH_IN_BYTES — `last_mut()` needs at least one byte, `try_from` at most 29."""
+        ip = facts.crate("ic_principal")
+        hs = [h for k, h in ip.hir.items() if re.search(r"Principal as arbitrary::Arbitrary<'a>>::arbitrary$", k)]
+        if not hs:
+            raise AnchorMissing("<ic_principal::Principal as arbitrary::Arbitrary>::arbitrary not found (feature `arbitrary`)")
+        h = hs[0]
+        chk.analysed(h["key"])
+        unwraps = [x for x in walk(h["body"]) if x.get("k") == "mcall" and x["m"] in ("unwrap", "expect")]
+        needs_nonempty = any(any(y.get("k") == "mcall" and y["m"] in ("last_mut", "last", "first", "first_mut", "pop") for y in walk(x["recv"])) for x in unwraps)
+        needs_max = any(any((y.get("k") in ("call", "mcall")) and re.search(r"try_from|from_slice", callee(y) or "") for y in walk(x["recv"])) for x in unwraps)
+        ranges = []
+        for x in walk(h["body"]):
+            if x.get("k") == "mcall" and x["m"] == "int_in_range":
+                for y in walk(x["args"][0]):
+                    if y.get("k") == "call" and re.search(r"RangeInclusive(::<[^>]*>)?::new$", callee(y) or ""):
+                        lo, hi = unblock(y["args"][0]), unblock(y["args"][1])
+                        hi_ok = (hi.get("k") == "path" and str((hi.get("res") or {}).get("path", "")).endswith("MAX_LENGTH_IN_BYTES")) or \
+                            (isinstance(lit_value(hi), int) and lit_value(hi) <= 29)
+                        ranges.append((lit_value(lo), hi_ok))
+        if (needs_nonempty or needs_max) and not ranges:
+            raise AnchorMissing("Principal::arbitrary unwraps but the length range `int_in_range(lo..=hi)` was not found")
+        for lo, hi_ok in ranges:
+            chk.expect((not needs_nonempty or (isinstance(lo, int) and lo >= 1)) and (not needs_max or hi_ok), "leaf:Principal::arbitrary:length-range-justifies-unwraps",
+                       f"Principal::arbitrary draws the length from {lo}..=.. and then unwraps `last_mut()` / `try_from`: a length of 0 (or above "
+                       f"MAX_LENGTH_IN_BYTES) makes the generator panic for every type that contains `principal`, `service` or `func` instead of returning a value or "
+                       f"an error", where=f"{h['span']['file']}:{h['span']['lo']}", ok_detail="1..=MAX_LENGTH_IN_BYTES")
+        if not unwraps:
+            chk.ok("leaf:Principal::arbitrary:length-range-justifies-unwraps", "no unwrap in the leaf generator", nontrivial=False)
+
     def r5():
         """The size estimate that decides between the recursive and the bounded generator (`size`, `size_helper`) is computed by a
         self-recursive function whose result doubles per `vec` level (`1 + s * 2`): any checked `+`/`*` in it traps for a type a
@@ -965,7 +996,8 @@ def run(chk, facts, tier, only=None):
                           ("C20.R2", "configured values are parsed and pass annotate_type at the requested type before being returned", r2),
                           ("C20.R3", "generated values have the type's constructor, labels, field order, variant index and payload types", r3),
                           ("C20.R4", "depth/size budget bookkeeping; push_state/pop_state paired with the same element", r4),
-                          ("C20.R5", "the size estimate of a type is computed without trapping arithmetic", r5)):
+                          ("C20.R5", "the size estimate of a type is computed without trapping arithmetic", r5),
+                          ("C20.R6", "the leaf generator for principals cannot panic", r6)):
         if only and only != rid:
             continue
         chk.run_rule(rid, desc, f_)
